@@ -393,7 +393,7 @@ def _tierwise_cases(quick):
         for d in (0.5, 2.0):
             for m in ("stretch", "split", "no_change", "error"):
                 ops.append(("space", s, d, m))
-    for off in (-5.0, -2.0, -0.5, 0.5, 3.0):
+    for off in (-5.0, -2.0, -0.5, 0.5, 3.0, 0.0):
         for m in ("silence", "error"):
             ops.append(("shift", off, m))
     stride = 4 if quick else 1
@@ -403,6 +403,13 @@ def _tierwise_cases(quick):
                 tiers = (("I", "a", D.labelled(s1)), ("P", "p", D.labelled_points(p)), ("I", "b", D.labelled(s2, "x")))
                 for op in ops:
                     yield (tiers, 0.0, 4.0, op)
+    # tiers with entries BEFORE time 0 (a shift - also the shift by nothing, 0 / 0.0 / -0.0 - drops or clips what ends up before 0, tier by tier)
+    for nE in (((-3.0, -2.0, "a"), (-1.0, 1.0, "b")), ((-3.0, -1.0, "a"),), ((0.0, 1.0, "a"),), ()):
+        for nP in (((-2.0, "x"), (0.0, "y"), (1.0, "z")), ((-1.0, "x"),), ()):
+            ntiers = (("I", "a", nE, (-3.0, 2.0)), ("P", "p", nP, (-3.0, 2.0)))
+            for off in (0.0, 0, -0.0, 0.5, -1.0, 1.0, 3.0):
+                for m in ("silence", "error"):
+                    yield (ntiers, -3.0, 2.0, ("shift", off, m))
     # tiers whose own spans are narrower than the textgrid's, in several orders: an argument adjusted for one tier must not
     # leak into the next tier
     short_sets = D.interval_sets((0.0, 1.0, 2.0), 2)
